@@ -849,6 +849,48 @@ func errClass(err error) string {
 }
 
 // Run executes one case.
+// keptReads retains every slice a read returned WITHOUT copying it (a consumer may keep what
+// Transport.Read hands out), next to a snapshot taken at the moment of the return. The oracle works
+// on the snapshots; recheck compares the retained slices with them again after later reads / Close.
+type keptReads struct {
+	chunks [][]byte
+	snaps  [][]byte
+}
+
+func (k *keptReads) add(b []byte) {
+	k.chunks = append(k.chunks, b)
+	k.snaps = append(k.snaps, append([]byte(nil), b...))
+}
+
+func (k *keptReads) joined() []byte {
+	var g []byte
+	for _, s := range k.snaps {
+		g = append(g, s...)
+	}
+	return g
+}
+
+// recheck returns how many non-empty chunks that were followed by a later read were compared, and a
+// complaint if one of them no longer holds the bytes it held when it was returned.
+func (k *keptReads) recheck() (rechecked int, complaint string) {
+	for i := range k.chunks {
+		if len(k.snaps[i]) == 0 || i == len(k.chunks)-1 {
+			continue
+		}
+		rechecked++
+		if complaint == "" && !bytes.Equal(k.chunks[i], k.snaps[i]) {
+			var now, then []byte
+			for j := range k.chunks {
+				now = append(now, k.chunks[j]...)
+				then = append(then, k.snaps[j]...)
+			}
+			complaint = fmt.Sprintf("the slice returned by read %d of %d held %s when it was returned and holds %s after the later reads and Close\nstream joined from the retained slices: %s\nstream as delivered at return time     : %s",
+				i+1, len(k.chunks), hx(k.snaps[i]), hx(k.chunks[i]), hx(now), hx(then))
+		}
+	}
+	return rechecked, complaint
+}
+
 // Run executes one case. An outcome that equals a correct client's whose negotiation window ended
 // early (the only thing scheduling can do to a correct client) must repeat in three executions,
 // none of them under measurable CPU pressure, to count as a violation.
@@ -948,7 +990,7 @@ func runOnce(d Desc) (res mon.Result, earlyPattern bool) {
 			Detail: fmt.Sprintf("Open returned %v for opening %s", openErr, hx(wire))}, false
 	}
 	// the first reads: until the server's half-close shows up as an error
-	var got []byte
+	var kept keptReads
 	var readSizes []int
 	var readErr error
 	maxReads := 2*(len(wire)+len(tail)) + 1000
@@ -956,7 +998,7 @@ func runOnce(d Desc) (res mon.Result, earlyPattern bool) {
 	for i := 0; ; i++ {
 		b, err := tr.Read()
 		nReads++
-		got = append(got, b...)
+		kept.add(b) // the slice itself is retained, not a copy
 		if len(readSizes) < 8 {
 			readSizes = append(readSizes, len(b))
 		}
@@ -970,6 +1012,8 @@ func runOnce(d Desc) (res mon.Result, earlyPattern bool) {
 		}
 	}
 	closeTr()
+	got := kept.joined() // (i) every chunk as it was at the time of its return
+	rechecked, changed := kept.recheck()
 	select {
 	case <-srv.done:
 	case <-time.After(45 * time.Second):
@@ -993,7 +1037,7 @@ func runOnce(d Desc) (res mon.Result, earlyPattern bool) {
 	}
 	obs := map[string]int64{"openings": 1, "segments": int64(len(d.Segs)), "opening_bytes": int64(len(wire)),
 		"requests": int64(len(ref.reqs)), "reply_bytes_received": int64(len(srv.recv)), "data_bytes_expected": int64(len(ref.data)),
-		"data_bytes_read": int64(len(got)), "reads": int64(nReads)}
+		"data_bytes_read": int64(len(got)), "reads": int64(nReads), "chunks_rechecked_after_later_reads": int64(rechecked)}
 	tags := []string{fmt.Sprintf("timeout=%dms", d.TimeoutMs), "seg=" + d.SegMode, fmt.Sprintf("readsize=%d", d.ReadSize),
 		fmt.Sprintf("tail=%v", len(tail) > 0)}
 	special := 0
@@ -1075,6 +1119,9 @@ func runOnce(d Desc) (res mon.Result, earlyPattern bool) {
 	}
 	if k, dt := judgeReplies(wire, ref, srv.recv); k != "" {
 		keys, details = append(keys, k), append(details, dt)
+	}
+	if changed != "" {
+		keys, details = append(keys, "c15/delivered-chunk-changed-after-return"), append(details, changed)
 	}
 	if readErr != io.EOF && len(keys) == 0 {
 		keys = append(keys, "c15/read-error:"+errClass(readErr))
